@@ -11,13 +11,15 @@ def dump(repo):
             bitcoin.SelectParams(name)
             p = bitcoin.params
             cp = bitcoin.core.coreparams
-            assert p is cp, 'SelectParams must leave bitcoin.params and bitcoin.core.coreparams identical'
+            # consensus fields are read where the consensus code reads them (bitcoin.core.coreparams), network and
+            # address fields where the network / wallet code reads them (bitcoin.params); whether the two are one
+            # object is not a property of the library
             rows.append('''  { name := %s, messageStart := %s,
     pubkeyAddr := %d, scriptAddr := %d, secretKey := %d, bech32Hrp := %s,
     maxMoney := %d, powLimit := %d }''' % (
                 _s(p.NAME), list(p.MESSAGE_START),
                 p.BASE58_PREFIXES['PUBKEY_ADDR'], p.BASE58_PREFIXES['SCRIPT_ADDR'], p.BASE58_PREFIXES['SECRET_KEY'],
-                _s(p.BECH32_HRP), p.MAX_MONEY, p.PROOF_OF_WORK_LIMIT))
+                _s(p.BECH32_HRP), cp.MAX_MONEY, cp.PROOF_OF_WORK_LIMIT))
     finally:
         bitcoin.SelectParams(saved)
     return ('-- GENERATED from the working tree by harness/tables/chain.py on every run; do not edit.\n'
